@@ -80,6 +80,18 @@ class Failing(EventProcessor):
         return "Failing"
 
 
+class UFailing(Failing):
+    """A failing processor that defines __eq__ without __hash__ (e.g. a dataclass observer): unhashable."""
+
+    def __eq__(self, other):
+        return self is other
+
+    __hash__ = None
+
+    def __repr__(self):
+        return "UFailing"
+
+
 class AFailing(AsyncEventProcessor):
     def __init__(self, k=None, at_shutdown=False, every=False):
         self.k = k
